@@ -127,8 +127,18 @@ def load_findings(prop):
     for path in paths:
         if not os.path.exists(path):
             continue
-        with open(path) as f:
-            data = json.load(f)
+        data = None
+        for attempt in range(5):
+            try:
+                with open(path) as f:
+                    data = json.load(f)
+                break
+            except (json.JSONDecodeError, OSError):
+                time.sleep(0.2)  # a drop-in being rewritten by someone else: retry
+        if data is None:
+            if os.path.basename(path) in ("known_findings.json", prop + ".json"):
+                raise HarnessError("unreadable findings file %s" % path)
+            continue
         out += [x for x in data.get("findings", []) if x.get("property") == prop]
     return out
 
@@ -431,7 +441,7 @@ def merge_results(results):
     return out
 
 
-def write_evidence(mod, tier, seed, res, wall):
+def write_evidence(mod, tier, seed, res, wall, dry=False):
     prop = mod.PROPERTY
     samples = []
     for lab, s in sorted(res["samples"].items()):
@@ -465,6 +475,8 @@ def write_evidence(mod, tier, seed, res, wall):
         "wall_s": round(wall, 3),
         "violations": len(res["violations"]),
     }
+    if dry:  # sensitivity runs against scratch/mutated trees must not overwrite evidence of the real tree
+        return ev
     os.makedirs(os.path.join(VERIF, "evidence"), exist_ok=True)
     path = os.path.join(VERIF, "evidence", prop + ".json")
     tmp = path + ".tmp"
@@ -591,7 +603,7 @@ def main(argv=None):
         res = merge_results([ctx.result()])
 
     wall = time.time() - t0
-    ev = write_evidence(mod, args.tier, seed, res, wall)
+    ev = write_evidence(mod, args.tier, seed, res, wall, dry=bool(os.environ.get("VERIF_NO_EVIDENCE")))
     findings = load_findings(prop)
     for f in findings:
         if f.get("status") == "open" and res["excluded"].get(f["id"], 0) > 0:
